@@ -10,6 +10,6 @@ git -C "$WT" checkout -q -- . && git -C "$WT" reset -q --hard $(git -C /repo rev
 git -C "$WT" apply "$D/patch.diff" || { echo "patch does not apply"; exit 2; }
 (cd "$D" && ODC_SRC="$WT" PYTHONPATH="$WT" timeout 900 /venv/bin/python demo.py >/dev/null 2>&1); echo "demo-with-change rc=$?"
 /verif/tools/baseline.py "$WT" | head -5
-cd /verif
+cd ${VH_VERIF:-/verif}
 for id in "$@"; do VH_OUT=${VH_OUT:-/tmp/vh_out} PYTHONPATH="$WT" ./check "$id" 2>&1 | grep -v "^KNOWN" | cut -c1-260 | tail -4; done
 git -C "$WT" checkout -q -- . ; git -C "$WT" clean -qfd
